@@ -48,7 +48,7 @@ INJECT = [
     ("5.6.1", "arg(i: \"s\", li: [1, 2])"), ("5.6.1", "arg(li: [1, 2], i: \"s\")"), ("5.6.1", "arg(i: \"s\", o: {x: 1})"), ("5.6.1", "arg(s: 1, lli: [[1]], b: true)"),
     ("5.6.1", "arg(o: {x: \"s\", y: [1, 2]})"), ("5.6.1", "arg(o: {y: [1], x: \"s\"})"), ("5.6.1", "arg(o: {x: 1, inner: {zzz: 1, y: []}})"), ("5.6.1", "arg(o: {x: 1, inner: {x: \"s\", y: [1]}, y: [2]})"),
     ("5.6.1", "arg(o: {c: BLUE, y: [1], x: 1})"), ("5.6.1", "z: a @tag(n: \"s\", l: [1])"), ("5.6.1", "z: a @tag(l: [1], n: \"s\")"), ("5.6.1", "arg(lo: [{x: \"s\", y: [1]}])"),
-    ("5.4.1", "arg(zzz: 1, li: [1])"), ("5.8.3", "arg(i: $undef, li: [1])"), ("5.8.5", "arg(s: $v, li: [1, 2])"),
+    ("5.4.1", "arg(zzz: 1, li: [1])"), ("5.4.1", "z: a @bare(bogus: 1)"), ("5.4.1", "... @bare(x: true) { z: a }"), ("5.4.1", "z: a @bare @tag(n: 1) @lim(maxx: 1)"), ("5.4.1", "z: a @mark(n: 1)"), ("5.8.3", "arg(i: $undef, li: [1])"), ("5.8.5", "arg(s: $v, li: [1, 2])"),
     ("5.6.3", "arg(o: {x: 1, x: 2})"), ("5.6.3", "arg(o: {x: 1, inner: {x: 1, x: 2}})"),
     ("5.7.1", "z: a @nope"), ("5.7.1", "... @nope { z: a }"), ("5.7.2", "z: a @onlyq"), ("5.7.2", "... @onlyq { z: a }"), ("5.7.2", "z: a @mark"), ("5.7.2", "z: a @deprecated"),
     ("5.7.3", "z: a @tag @tag"), ("5.7.3", "z: a @skip(if: true) @skip(if: false)"), ("5.7.3", "... @tag @tag(n: 1) { z: a }"),
